@@ -44,11 +44,15 @@ def _post(lines, verdicts):
     if len(sk) * 50 > n:
         out.append(("diff", sk[0][:300], f"diff {len(sk)} of {n} cases could not be set up (cap 2 %)"))
     kinds, kills, broken_reqs, mid_frame_cuts, retried = {}, 0, 0, 0, 0
+    twice, aux_cases, refills = 0, 0, 0
     for ln in lines:
         try:
             case, obs = ln.split("|", 1)
             f = case.split()
             fk = re.sub(r"(?<=garb).*|(?<=ver).*", "", f[5])
+            if fk.startswith("2x"):
+                twice += 1
+                fk = fk[2:]
             kinds[fk] = kinds.get(fk, 0) + 1
             if obs.strip().startswith("skip"):
                 continue
@@ -56,6 +60,16 @@ def _post(lines, verdicts):
             if fk.startswith("burst"):
                 kills += kv.get("conns", "").count("R@") + kv.get("conns", "").count("F@")
             broken_reqs += kv.get("res", "").count("err:broken.")
+            if kv.get("aux", "-") != "-":
+                aux_cases += 1
+            # a replacement pool connection observed at the mock after one broke (same node)
+            brk = set()
+            for tok in kv.get("pool", "-").split(","):
+                if tok[:1] == "b":
+                    brk.add(tok[1:].split(".")[0])
+                elif tok[:1] == "a" and tok[1:].split(".")[0] in brk:
+                    refills += 1
+                    break
             if fk in ("fin", "rst") and 0 < int(f[6]) < 60 and ("F@" in kv.get("conns", "") or "R@" in kv.get("conns", "")):
                 mid_frame_cuts += 1
             if f[9] == "1" and kv.get("res", "").count("ok:") and "err" not in kv.get("res", "") and fk in ("fin", "rst", "unsol", "stall"):
@@ -64,10 +78,16 @@ def _post(lines, verdicts):
             pass
     if n >= 500:   # a tier run, not a replay
         need = {"fin": 60, "rst": 60, "garb": 20, "ver": 5, "unsol": 5, "stall": 5, "burstrst": 40,
-                "split": 2, "dup": 2, "short": 2, "neg": 1}
+                "split": 2, "dup": 2, "short": 2, "neg": 1, "corr": 15}
         for k, m in need.items():
             if kinds.get(k, 0) < m:
                 out.append(("diff", lines[0][:300], f"diff only {kinds.get(k, 0)} cases of fault kind {k} (floor {m})"))
+        if twice < 8:
+            out.append(("diff", lines[0][:300], f"diff only {twice} cases with a second fault on the re-established connection (floor 8)"))
+        if aux_cases < 8:
+            out.append(("diff", lines[0][:300], f"diff only {aux_cases} cases with BATCH/PREPARE/paged/USE requests in flight (floor 8)"))
+        if refills < 150:
+            out.append(("diff", lines[0][:300], f"diff only {refills} cases where a replacement pool connection was observed after a break (floor 150)"))
         if kills < 200:
             out.append(("diff", lines[0][:300], f"diff only {kills} burst rounds really killed a connection (floor 200)"))
         if broken_reqs < 500:
@@ -90,6 +110,7 @@ SPEC = {
              "0..frame length+1 of a 3-request script, then random), ver<xx> = bad version byte, unsol = frame for a stream nobody "
              "waits on, garb<hex> = raw bytes (unknown opcode, short header, header announcing more body than follows, random), "
              "stall = silent connection with keepalive 150ms/250ms; later requests stay unanswered or are answered late; "
+             "corr = one header byte (version, flags, opcode, frame length) of a reply XORed (every such offset x 3 masks); 2x<kind> = the scenario twice, second fault on the re-established connection; aux = BATCH/PREPARE/paged/USE requests in flight as well; "
              "burstrst/burstfin = n client tasks issue j requests each, in 6..12 rounds the mock kills the pool connection(s) of node 0 "
              "while requests are being submitted (the submit/teardown race of finding F15; a fifth of the cases); "
              "non-trivial = fault != none; distinct = distinct case lines"),
